@@ -462,6 +462,9 @@ def sym_if(c, a, b):
     if isinstance(a, SCplx) or isinstance(b, SCplx):
         a, b = SCplx.lift(a), SCplx.lift(b)
         return SCplx(sym_if(c, a.re, b.re), sym_if(c, a.im, b.im))
+    if not isinstance(a, (Sym, int, float, bool, Fraction)) or not isinstance(b, (Sym, int, float, bool, Fraction)):
+        from .heap import ref_if
+        return ref_if(c, a, b)
     a, b = Sym.lift(a), Sym.lift(b)
     if a.k == 'bool' and b.k == 'bool':
         return Sym(z3.If(c.t, a.t, b.t), 'bool')
